@@ -55,6 +55,7 @@ type KnownFindings struct {
 }
 
 type Ledger struct {
+	PackageFuncs []string                    `json:"package_functions"` // every function of the package on the pinned tree
 	Tree        string                       `json:"tree"`
 	Functions   map[string]LedgerFunc        `json:"functions"`
 	Obligations map[string]map[string]string `json:"obligations"` // property -> obligation -> expected
@@ -508,6 +509,30 @@ func RunCheck(o CheckOpts) int {
 			}
 		}
 	}
+	// The structural passes (effects, disciplines, no-panic sweep, goroutine
+	// inventory) classify functions by their contracts. A function that does not
+	// exist on the pinned tree has none: what it may do is not known, which is
+	// not the same as a violation.
+	isNewFunc := func(n string) bool {
+		if len(ledger.PackageFuncs) == 0 || n == "" || prog.Funcs[n] == nil {
+			return false
+		}
+		return !contains(ledger.PackageFuncs, n)
+	}
+	for _, ob := range obs {
+		if (ob.Result == "failed" || ob.Result == "unknown") && (ob.Kind == "effect" || ob.Kind == "discipline" || ob.Kind == "sweep" || ob.Kind == "goroutine") {
+			culprit := ""
+			if isNewFunc(ob.Function) {
+				culprit = ob.Function
+			} else if i := strings.LastIndex(ob.Name, "/"); i >= 0 && isNewFunc(ob.Name[i+1:]) {
+				culprit = ob.Name[i+1:]
+			}
+			if culprit != "" {
+				ob.Result = "undecided"
+				ob.Reason = "function " + culprit + " does not exist on the pinned tree and has no contract: the pass cannot classify what it does"
+			}
+		}
+	}
 	for _, ob := range obs {
 		if why, ok := staleContract[ob.Function]; ok && (ob.Result == "failed" || ob.Result == "unknown") && ob.Kind != "og-schema" && ob.Kind != "anchor" {
 			ob.Result = "undecided"
@@ -640,7 +665,7 @@ func RunCheck(o CheckOpts) int {
 		writeEvidence(o, prog, cs, results, obs, discharged, undecided, known, violations, float64(solverMs)/1000, wall)
 	}
 	if o.WriteLedger && exit == 0 {
-		updateLedger(o, results, obs)
+		updateLedger(o, prog, results, obs)
 	}
 	return exit
 }
@@ -677,9 +702,14 @@ func newAbstractions(ob *ObligationResult, l Ledger) []string {
 	return out
 }
 
-func updateLedger(o CheckOpts, results []*FuncResult, obs []*ObligationResult) {
+func updateLedger(o CheckOpts, prog *Program, results []*FuncResult, obs []*ObligationResult) {
 	var l Ledger
 	_ = loadJSON(filepath.Join(verifDir, "obligations.lock.json"), &l)
+	l.PackageFuncs = nil
+	for n := range prog.Funcs {
+		l.PackageFuncs = append(l.PackageFuncs, n)
+	}
+	sort.Strings(l.PackageFuncs)
 	if l.Functions == nil {
 		l.Functions = map[string]LedgerFunc{}
 	}
